@@ -9,7 +9,8 @@ from ..genmod import Builder
 NONASCII = ["ünï", "✓ done", "日本語のテキスト", "é combining", "Ωmega→∞", "naïve café", "ｗｉｄｅ", "😀 emoji",
             "Ελληνικά", "кириллица", " nbsp", "ß«»"]
 PREFIXES = ["#", "##", "[", "]", ":", "..", ".. ", ":param x:", "[=[", "] ", "#[", "# ", "-", "*", "|", ">>>", "\\", "`",
-            "**", "=====", "\"", "(", ")", "${", "@module", "#]", "] ]"]
+            "**", "=====", "\"", "(", ")", "${", "@module", "#]", "] ]", ":param **kwargs: ", ":param *args: ", ":keyword **opts: ",
+            ":type **kwargs: ", "* ", "** bold** ", ":returns: *", "\\* ", "|sub| ", "`` ", "__ "]
 WORDS = ["alpha", "beta", "the", "value", "of", "x", "::", "end.", "a,b", "(see)", "`code`", "*em*"]
 SUFFIXES = ["", "", "", " #", " ]", " #]", "#", " trailing  ", "\t", " :", " \\"]
 
